@@ -1,6 +1,8 @@
-(* C14 (part a) -- pilot states move forward.  Statements only. *)
+(* C14 -- pilot states move forward (part a: client side) and end for the
+   right reason (part b: Agent_0's termination cause).  Statements only. *)
 From Coq Require Import ZArith List Bool.
 From RP Require Import Gen.StatesTables States.Model States.Proofs States.Inst.
+From RP Require Import AgentCause.Model AgentCause.Proofs.
 Import ListNotations.
 Open Scope Z_scope.
 
@@ -57,3 +59,36 @@ Example C14_nonvacuous :
       (1, P_PMGR_ACTIVE_PENDING); (1, P_PMGR_ACTIVE); (1, P_DONE)],
      [ValueError]).
 Proof. vm_compute. reflexivity. Qed.
+
+(* ---------------- part b: the final state tells why the pilot ended ---------------- *)
+
+(* For every sequence of lifetime checks, cancel requests and terminate
+   commands handled by the agent, the state written at shutdown is the
+   declarative reading `spec_final` (AgentCause/Model.v). *)
+Theorem C14_final_state_spec : forall es : list aev, agent_final es = spec_final es.
+Proof. exact agent_final_spec. Qed.
+Print Assumptions C14_final_state_spec.
+
+(* ran until its requested run time (then stop()/terminate in any number): DONE *)
+Theorem C14_timeout_done : forall a b : list aev,
+  forallb (fun e => match e with Lifetime true true | CancelPilots true => false | _ => true end) b = true ->
+  agent_final (a ++ Lifetime true true :: b) = F_DONE.
+Proof. exact timeout_then_stops_done. Qed.
+Print Assumptions C14_timeout_done.
+
+Theorem C14_cancel_canceled : forall a b : list aev,
+  forallb (fun e => match e with Lifetime true true | CancelPilots true => false | _ => true end) b = true ->
+  agent_final (a ++ CancelPilots true :: b) = F_CANCELED.
+Proof. exact cancel_then_stops_canceled. Qed.
+Print Assumptions C14_cancel_canceled.
+
+Theorem C14_otherwise_failed : forall es : list aev,
+  forallb (fun e => negb (is_terminating e)) es = true -> agent_final es = F_FAILED.
+Proof. exact no_cause_failed. Qed.
+Print Assumptions C14_otherwise_failed.
+
+Example C14_cause_nonvacuous :
+  agent_final [Lifetime true false; CancelPilots false; Lifetime true true; Terminate] = F_DONE /\
+  agent_final [CancelPilots true; Terminate] = F_CANCELED /\
+  agent_final [Lifetime false true; CancelPilots false] = F_FAILED.
+Proof. vm_compute. auto. Qed.
